@@ -665,12 +665,18 @@ class Interp:
             c = self.container(cont.ref)
             if isinstance(c, (LConc, SConc)):
                 return z3.Or([self.eq(item, x) for x in c.items] + [z3.BoolVal(False)])
-            return z3.Contains(c.term, z3.Unit(to_term(self.force(item), c.elem)))
+            try:
+                return z3.Contains(c.term, z3.Unit(to_term(self.force(item), c.elem)))
+            except TypeError:
+                return z3.BoolVal(False)     # a value of another type is never an element
         if cont.tag == "dict":
             c = self.container(cont.ref)
             if isinstance(c, DConc):
                 return z3.Or([self.eq(item, self.const(k)) for k, _ in c.entries] + [z3.BoolVal(False)])
-            kt = to_term(self.force(item), c.kshape)
+            try:
+                kt = to_term(self.force(item), c.kshape)
+            except TypeError:
+                return z3.BoolVal(False)
             self.dmap_keys.setdefault(cont.ref, []).append(kt)
             return z3.Select(c.dom, kt)
         if cont.tag == "obj" and cont.ref.kind == "rec":
@@ -1014,7 +1020,17 @@ class Interp:
                 return VFn("tuplemeth", val=base, name=attr)
             raise Unsupported("tuple attribute %s" % attr)
         if base.tag in ("str", "list", "dict", "set"):
+            from . import builtins_ as B
+            if base.tag != "str" and attr not in B.KNOWN_METHODS[base.tag]:
+                if self.spec_depth:
+                    raise SpecError("attribute %s of %s in clause" % (attr, base.tag))
+                self.raise_("AttributeError", "'%s' object has no attribute '%s'" % (base.tag, attr))
             return VFn(base.tag + "meth", val=base, name=attr)
+        if base.tag in ("int", "real", "bool") and attr not in ("real", "imag", "bit_length", "is_integer",
+                                                                "conjugate", "numerator", "denominator"):
+            if self.spec_depth:
+                raise SpecError("attribute %s of %s in clause" % (attr, base.tag))
+            self.raise_("AttributeError", "'%s' object has no attribute '%s'" % (base.tag, attr))
         if base.tag == "none":
             if self.spec_depth:
                 raise SpecError("attribute %s of None in clause" % attr)
